@@ -197,9 +197,10 @@ func runProcScenario(t *testing.T, rec *Recorder, r *rand.Rand, idx int) {
 		a, _ := e["a"].([]any)
 		switch e["ev"] {
 		case "Captured":
-			e["pwm"], e["mode"] = num(a[0]), -1
+			// the registers as the harness created them (the original state of the device), not the controller's claim
+			e["pwm"], e["mode"] = f.Pwm0, -1
 			if f.HasMode {
-				e["mode"] = num(a[1])
+				e["mode"] = f.Mode0
 			}
 		case "CycleEnd":
 			e["pwm"] = num(a[0])
